@@ -93,7 +93,7 @@ CHECKS = {
              "specification on each is the model-level totality check. The real readers are run on all of them and on "
              "randomly damaged real files (numeric boundary values, deleted/duplicated columns and lines) under a panic "
              "guard and a watchdog: FormatsTrace.tla rejects a panic, a hang, a (nil, nil) return, more than lines+1 calls "
-             "before EOF or an error, and a record where the specification classifies the line as structurally invalid.",
+             "before EOF or an error, and a record where the specification classifies the line as structurally invalid. Field edits include blank-separated tokens of directive lines and bytes that are blanks as Latin-1 runes only.",
         note=COMMON, ref="DESIGN.md §6 C01-C04"),
     "C04": dict(
         technique="layout transformations as TLA+ actions with invariant Read(text) = records; TLC explores all "
@@ -113,7 +113,7 @@ CHECKS = {
              "(order independence), every feature in exactly one pile, duplicates rejected, and refutes four wrong "
              "variants. Every Add sequence of the bounded model and random walks in every order, plus random instances "
              "of up to 40 pairs, run on a real pals.Piler; PilerTrace.tla recomputes the components and judges every "
-             "Piles call (filters included), Location() and Mate().",
+             "Piles call (filters included), Location() and Mate(). PilerPiles.tla states the place-all-then-filter discipline of Piles (a fused pass is refuted); filters that read their pair's piles and filter-first call plans are part of every run, and a filter must never be consulted about a feature that is not yet placed in its pile.",
         note="Trusted: driver's reading of Pile/Feature fields by pointer identity. Not judged: Add after Piles, inverted "
              "features, slack other than 0.",
         ref="DESIGN.md §6 C16"),
@@ -126,7 +126,7 @@ CHECKS = {
              "index(comp(l)) = 3 - index(l), constructor rejections) as invariants over the seven built-in definitions "
              "and every definition of a small ASCII sample; four wrong variants are refuted. The driver dumps every "
              "accessor of the built-ins over all 256 letters and runs TLC-emitted and random (also non-ASCII, "
-             "non-bijective) definitions through the constructors; AlphabetTrace.tla recomputes everything.",
+             "non-bijective) definitions through the constructors; AlphabetTrace.tla recomputes everything. Letter slices with multi-byte runs of letters >= 128 are cases of the bounded model (SliceLaw; negative control: a scan that reads the slice as UTF-8 text).",
         note="Trusted: the transcription of the seven definition strings; error classes compared only as accept/reject.",
         ref="DESIGN.md §6 C17"),
     "C18": dict(
@@ -138,7 +138,7 @@ CHECKS = {
              "and the correctly rounded conversions (near ties are excluded, counted). TLC checks monotonicity, "
              "score-probability-score identity, mutual inverses from Q=10, and refutes the as-found table and encoder. "
              "Every function of alphabet/letters.go and seq/quality is dumped for all 256 scores, bytes and 7 encodings "
-             "plus thousands of sampled probabilities; QualityTrace.tla judges each value.",
+             "plus thousands of sampled probabilities; QualityTrace.tla judges each value. Decoding a byte to the other score kind must equal the encoding's own decode followed by the stated conversion.",
         note="Trusted: Go's float64 to (mantissa, exponent) rendering in the driver. Accuracy beyond 4 significant digits "
              "is not decided; a score of one kind under an encoding of the other kind is drift only.",
         ref="DESIGN.md §6 C18"),
@@ -164,7 +164,7 @@ CHECKS = {
              "Truncate cases incl. circular wrap; the as-found Trim (start of the last run) and Compose (first reversed "
              "segment reused) are refuted. Thousands of random calls on linear.Seq/QSeq with negative/zero/positive "
              "offsets, circular sources, overlapping unsorted partly-outside features in both orientations are judged by "
-             "SeqTrace.tla: result, error-not-panic, source unchanged, no shared storage.",
+             "SeqTrace.tla: result, error-not-panic, source unchanged, no shared storage. Truncate is also run in place and into formerly circular destinations; Stitch and Compose results must be linear and start at 0.",
         note=SEQNOTE, ref="DESIGN.md §6 C05-C07"),
     "C07": dict(
         technique="TLA+ grid model with AppendColumns/AppendEach/Delete/Add/Flush/Truncate/Subseq/Clone edits; TLC checks "
@@ -189,7 +189,7 @@ CHECKS = {
              "update leaves the exon set unchanged; the as-found in-place sort and two other wrong variants are refuted. "
              "The emitted cases, enumerated histories with spare capacity as the runtime leaves it, chains of 998..1003 "
              "features and random gene models up to 1500 exons run on NonCodingTranscript, CodingTranscript and Exons; "
-             "GeneTrace.tla recomputes every result.",
+             "GeneTrace.tla recomputes every result. The gene level is specified too: SetFeatures accept rule, bounds equal to the retained features, rejected calls change nothing (negative control: length updated before validation ends); coding transcripts are viewed again after their orientation was turned round.",
         note="Trusted: driver's reading of values through exported methods, pointer identity for locations. Zero-length "
              "exons with equal starts (unstable sort) are assumed away.",
         ref="DESIGN.md §6 C20"),
@@ -226,7 +226,7 @@ CHECKS = {
              "words are empty, and the word functions (KmerOf, Format, ComplementOf, GCof) agree with the string "
              "operations, for all sequences up to length 6 (7-8 thorough) over {a,c,g,t,n,A}, k in {2,3}; three wrong "
              "variants are refuted. Emitted sequences (MinKmerLen lowered), exhaustive k=4 and random sequences up to 5000 "
-             "letters, k 4..10, with runs of invalid bytes run through the real index; KmerTrace.tla judges every result.",
+             "letters, k 4..10, with runs of invalid bytes run through the real index; KmerTrace.tla judges every result. KmerQueries.tla models the built index as a state machine of queries whose answers depend on the indexed sequence only (negative control: answers that alias the position table); on the real code every answer is overwritten by the caller and all questions are asked again.",
         note="Trusted: the driver's dump of positions maps and callbacks; full maps judged up to 400 letters, longer "
              "sequences on sampled words and ranges.",
         ref="DESIGN.md §6 C10"),
@@ -240,7 +240,7 @@ CHECKS = {
              "non-self, and refutes the as-found retirement. The real filter (MinKmerLen lowered to 2) runs on thousands "
              "of small inputs - TLC enumerates their epsilon-matches and compares the real hit list with the model's - and "
              "on random / repeat-planted pairs up to 300-400 letters, k 4..7, n 12..41, e 0..3, where every epsilon-match "
-             "found by a scan and re-checked by TLC must be covered by a hit.",
+             "found by a scan and re-checked by TLC must be covered by a hit. A third of the small cases run on a Filter that has already served a longer query (PALS uses one Filter for both strands).",
         note="Trusted: the harness scan that proposes epsilon-matches for large inputs (each is re-checked; a missed "
              "candidate would weaken, not falsify, the verdict). Sequences over A,C,G,T only.",
         ref="DESIGN.md §6 C14"),
